@@ -262,7 +262,7 @@ def handleChanPacket (m : Mux) (id : Nat) (c : Chan) (p : Bytes) (t : Nat) : Opt
   else if t = 96 then some (.ok, m, [])
   else
     match decode p with
-    | .error .unmodelled => none
+    | .error .unmodelled => some (.err, m, [])   -- whatever decode says, a non-channel message is an error here (18df6c0)
     | .error _ => some (.err, m, [])
     | .ok msg =>
       match msg with
@@ -369,7 +369,7 @@ def onePacket (m : Mux) (p : Bytes) : Option (Outcome × Mux × Evs) :=
         | none =>
           -- handleUnknownChannelPacket
           match decode p with
-          | .error .unmodelled => none
+          | .error .unmodelled => some (.err, m, [])   -- decode error or 'invalid channel': an error either way
           | .error _ => some (.err, m, [])
           | .ok (.chanRequest pid _ want _) =>
             if want then some (.ok, m, [s!"w100:{pid}"]) else some (.ok, m, [])
